@@ -276,6 +276,7 @@ pub fn pair_texts() -> Vec<(String, String)> {
         out.push(render(&[Tok::Id("a"), op(" ? "), op(u), Tok::Id("b"), op(" : "), op(u), Tok::Id("c")]));
         // unary with member / call / index
         out.push(render(&[op(u), Tok::Member("a", "x")]));
+        out.push(render(&[op(u), Tok::Member("a", "length")]));
         out.push(render(&[op(u), Tok::Index("a", "b")]));
         out.push(render(&[op(u), Tok::Call("a", "b")]));
     }
@@ -288,6 +289,7 @@ pub fn pair_texts() -> Vec<(String, String)> {
         // binary with member / index / call operands
         out.push(render(&[Tok::Id("a"), op(o), Tok::Member("b", "x")]));
         out.push(render(&[Tok::Member("a", "x"), op(o), Tok::Id("b")]));
+        out.push(render(&[Tok::Member("a", "length"), op(o), Tok::Member("b", "constructor")]));
         out.push(render(&[Tok::Id("a"), op(o), Tok::Index("b", "c")]));
         out.push(render(&[Tok::Id("a"), op(o), Tok::Call("b", "c")]));
     }
@@ -389,7 +391,7 @@ pub fn run(tier: Tier, seed: u64, findings: &Findings) -> i32 {
         Err(e) => report.errors.push(e.0),
     }
     // (P)
-    let cases = tier.pick(320, 16000);
+    let cases = tier.pick(4800, 400_000);
     report.merge(engine::run_generated(&check, &cfg, cases, 4, 16, findings, 0));
     engine::finish(
         Finish {
